@@ -17,6 +17,50 @@ CHECKS = {
   "runtime monitoring: order reference model over independently decoded commit DAGs, on produced and hand-crafted histories",
   "Every bug read in generated replica schedules, and every read/merge of hand-crafted commit DAGs (all small fork/merge shapes, clock assignments and single perturbations from the forbidden list), is compared with a reference model of the documented ordering and refusal rules; also across storage backends and merge-parent orders.",
   "Held on the enumerated shapes (<=5 commits exhaustively, 6 sampled) and executed schedules; trusts refmodel/order.go and the gitraw reader."),
+ "C04": ("exploration",
+  "runtime monitoring: API-boundary recorder vs read-back comparators over generated adversarial-but-valid operation sequences, several read paths and replicas",
+  "Every operation created through the editing API is recorded (id before commit, typed fields, serialization); after each commit and on every read path (bug.Read, ReadAll, cache, a second replica after push/pull and after stock git gc, the in-memory backend) ids, payload bytes, authors, order, Lamport times, Validate() and attached blobs are compared, and an independent reader recomputes ids from the stored bytes. Includes keyed-author scenarios.",
+  "Valid = whatever the editing API accepts; refused values are skipped and counted. Histories of up to ~12 operations, 2 replicas."),
+ "C05": ("exploration",
+  "runtime monitoring: offline checker over an event log produced by a ClockedRepo decorator (tree writes, increments, witnesses) plus API-boundary Seen/Reopen/ClocksDeleted events",
+  "Random sequences of increments, witnesses, creates, edits, reads, fetch+merge from a second replica, re-opens and clock-file deletions on the persisted and in-memory clocks; the checker replays the log: every written edit time is strictly above everything written, successfully read, merged or rebuilt from before; readings never decrease, also across re-open; rebuilt clocks dominate stored entities. Thorough adds a CLI session with deleted clock files.",
+  "Times of refused or fetched-but-unmerged data are deliberately not counted (the statement says fetched-and-merged)."),
+ "C08": ("exploration",
+  "runtime monitoring: key-validity reference model vs observed accept/refuse of crafted (identity history, commit, signing mode) pairs in child processes",
+  "Identity histories that add, remove and rotate keys at steered logical times are crossed with bug commits at every logical time, written by git-bug itself or crafted (right key, second key, removed key, future key, stranger, unsigned, altered tree/time; create, append and merge commits); a second replica holding only public keys reads and merges them; verdicts are compared with a model that evaluates keys in force at T and verifies the signature over the raw commit.",
+  "The OpenPGP verification primitive is shared with git-bug; RSA keys from a per-run pool."),
+ "C09": ("exploration",
+  "runtime monitoring: identity chain-merge reference model over (prefix, local suffix, remote suffix), field validation cases and crafted remote versions, in child processes",
+  "All (p,a,b) in {1..3}x{0..3}x{0..3} are produced by mutating and syncing one identity on two replicas (entity API and cache API) among bystander identities placed before and after it in ref order; statuses, version chains (independent reader), refs and returned entities are compared with the fast-forward-only model; invalid field values must be refused by Commit, crafted remote versions with decreasing/dropped clocks, no name and login, unsafe characters must be reported invalid with the local untouched.",
+  "Values where the statement is silent (tabs, zero-width marks, non-URL avatars...) are recorded, not judged."),
+ "C10": ("exploration",
+  "runtime monitoring: reference interpreter of bug operations vs Compile()/BugCache.Snapshot() on all short and many long random operation sequences",
+  "All operation sequences of length <=3 (thorough <=4) over a 13-symbol alphabet plus long random sequences are compiled and compared with an independent reference interpreter written from the property statement; compiled twice; driven incrementally through BugCache on a real repository with a comparison after every operation, after commit and after cache reopen against a from-scratch compilation.",
+  "Where the statement is silent (files of a never-edited create comment, actors of ineffective operations, timeline entries of ineffective changes) every behaviour is accepted; bounded part is exhaustive for the alphabet."),
+ "C12": ("exploration",
+  "runtime monitoring: parser fuzz under recover, render/parse round trip against the documented grammar, reference query evaluator over generated bug populations",
+  "Random strings never panic query.Parse; structured queries rendered per doc/queries.md parse back to the same structure and malformed classes are rejected; generated queries are evaluated through RepoCache on populations built from two replicas (Lamport ties) and compared with a reference evaluator over resolved snapshots: exact set, each once, order by requested key and direction.",
+  "Ties and default order unconstrained; full-text asserted on planted marker tokens only."),
+ "C13": ("exploration",
+  "runtime monitoring: prefix-resolution reference model over populations with engineered shared id prefixes, every prefix length of every id",
+  "Shared id prefixes are engineered by re-rolling operation nonces; every prefix length 0..64 of every bug, identity and combined comment id plus perturbations is resolved through ResolvePrefix, ResolveExcerptPrefix, ResolveComment and select.Resolve and compared with the model (unique / exactly the matching ids / not found); CombineIds/SeparateIds checked on 10k random pairs x 65 lengths.",
+  "Populations up to ~120 bugs; engineered collisions up to 5 hex characters."),
+ "C14": ("exploration",
+  "runtime monitoring: before/after frame-condition monitor (refs via independent reader and stock git, config multiset, .git/git-bug listing, cache answers, index hits) around removals through entity API, cache API and CLI",
+  "Repositories with 0..3 remotes (every holding subset), other entities with engineered shared prefixes and protected host refs/config; after a removal the symmetric difference must be exactly the entity's refs, excerpt and index document; the entity must stay unfindable across second removal, reopen, rebuild and merge without fetch; wipe is judged by its stated end state.",
+  "Only the earliest failing stage of a case is reported."),
+ "C15": ("exploration",
+  "runtime monitoring: full repository manifest / refs / status / config snapshots before and after every action of mixed CLI+library sessions on a stock-git host repository; git fsck --strict, clone, fetch, gc as oracles",
+  "A host repository built with stock git (branches, tags, stash, dirty tree, hostile config, look-alike refs) goes through sessions of 15..45 CLI and library actions; after every action the diff of files, refs, HEAD, index, work tree and config keys must stay inside git-bug's allow-list; at the end fsck --strict on all repositories, stock clone/fetch/push to a fsckObjects server and gc must succeed and every bug must read back.",
+  "Config compared as key/value multiset (go-git drops comments). Only the GitLab bridge is configured (against a local stub)."),
+ "C16": ("fault_enumeration",
+  "runtime monitoring with fault injection: the real GitLab importer against a simulated GitLab API, per-request-identity fault enumeration, dump-comparison oracles",
+  "A simulated GitLab (issues, notes incl. edits and system notes, label/state events, users, pagination, updated_after) is the ground truth; rounds import / re-import / grow / import / re-import from zero are compared op by op (idempotence, exactly the new events, incremental = one-shot, ground truth, Validate); for each request identity of a round one failure (403/404/500/drop/truncated body) is injected: an error-relaying run must not advance the cursor and a following clean run must equal a never-failed import.",
+  "The GitHub/Jira/Launchpad importers are not driven. Simulator fidelity to real GitLab is the harness's reading of go-gitlab's types and the importer's parser."),
+ "C19": ("fault_enumeration",
+  "runtime monitoring: real git-bug processes on one repository under kill/contend schedules, event log checked offline by a one-slot lock reference model",
+  "Holder (webui) and contender processes are spawned, signalled (SIGINT/SIGTERM/SIGKILL at build or ready, steered by hook delays) and reaped along generated schedules incl. failing commands, torn lock file and the check/create window; spawn/ready/attempt/signal/exit/lock-content events are checked by the lock model: no two holders, refusals name the holder and change nothing, opens succeed on a free cache, exits leave no lock, a live holder's lock survives.",
+  "Readiness is proven from output lines and socket ownership in /proc, exits from Wait(); no timing oracle."),
  "C06": ("fault_enumeration",
   "runtime monitoring with fault injection: self-SIGKILL before every mutating storage call (decorator), strace SIGKILL at every traced syscall, torn clock files; fresh-process state oracle",
   "For 15 write-path scenarios a dry run records the K mutating storage calls; every prefix is produced by killing the child process immediately before call k (exhaustive per scenario); thorough additionally kills at every mutating syscall position under strace and both tiers tear every clock file. A fresh process re-opens the repository with the clock loader, reads all entities and clocks; the monitor checks old-or-new per entity, clocks against stored times, and that repeating the action completes it.",
